@@ -807,9 +807,17 @@ impl Rt {
                 st.cvwait.entry(addr).or_default().push(tid);
             }
             K::Shim(OpKind::CvNotifyAll) => {
-                let ws = st.cvwait.remove(&addr).unwrap_or_default();
-                for w in ws {
-                    st.th[w].notified = true;
+                if val == 1 {
+                    // notify_one: a single waiter (the longest waiting one) is woken
+                    let w = st.cvwait.get_mut(&addr).and_then(|q| if q.is_empty() { None } else { Some(q.remove(0)) });
+                    if let Some(w) = w {
+                        st.th[w].notified = true;
+                    }
+                } else {
+                    let ws = st.cvwait.remove(&addr).unwrap_or_default();
+                    for w in ws {
+                        st.th[w].notified = true;
+                    }
                 }
             }
             K::Shim(OpKind::CvWake) => {
